@@ -26,6 +26,21 @@ type Violation struct {
 	Minimised   bool            `json:"minimised,omitempty"`
 	Describe    string          `json:"describe,omitempty"`
 	RaceReport  string          `json:"race_report,omitempty"`
+	// Batch: the position of the run in its batch. A violation that depends on
+	// what the worker process did before this run (process-global state left by
+	// earlier workloads) does not reproduce from its own workload alone; it is
+	// then replayed by re-executing the shard up to and including this run
+	// (BatchHistory = true), which is deterministic.
+	Batch        *BatchPos `json:"batch,omitempty"`
+	BatchHistory bool      `json:"batch_history,omitempty"`
+}
+
+type BatchPos struct {
+	Tier    string `json:"tier"`
+	Shard   int    `json:"shard"`
+	NShards int    `json:"nshards"`
+	N       int    `json:"n"`
+	Race    bool   `json:"race,omitempty"`
 }
 
 type Sample struct {
@@ -68,6 +83,8 @@ type BatchResult struct {
 	curRun  uint64
 	curHash uint64
 	trace   bool
+	pos     *BatchPos
+	onlyRun int64 // >= 0: keep only violations of this run (batch replay)
 	fpSet   map[uint64]bool
 	keySet  map[uint64]bool
 }
@@ -78,7 +95,7 @@ func newBatch(engine, prop string, seed uint64, shard int) *BatchResult {
 		Faults: map[string]int64{}, SitesSeen: map[string]int64{}, SitesHit: map[string]int64{},
 		Mix: map[string]int64{}, ViolationCnt: map[string]int64{}, KnownHits: map[string]int64{},
 		KnownExamples: map[string]string{}, Probes: map[string]int64{},
-		fpSet: map[uint64]bool{}, keySet: map[uint64]bool{},
+		fpSet: map[uint64]bool{}, keySet: map[uint64]bool{}, onlyRun: -1,
 	}
 }
 
@@ -137,6 +154,13 @@ func (b *BatchResult) violation(v Violation) {
 		return
 	}
 	b.ViolationCnt[key]++
+	v.Batch = b.pos
+	if b.onlyRun >= 0 {
+		if int64(v.Run) == b.onlyRun {
+			b.Violations = append(b.Violations, v)
+		}
+		return
+	}
 	if len(b.Violations) < maxViolationsKept {
 		b.Violations = append(b.Violations, v)
 	}
